@@ -1,7 +1,7 @@
 import DymVerif.Lemmas.SponsClaim
 /-
   Lemmas/SponsShares — endorsement shares: `TotalShares` of a rollapp's endorsement is the sum over
-  the votes of their power on the rollapp gauge (`ShareInv`), kept by vote / revoke / exact hooks;
+  the votes of their power on the rollapp gauge (`ShareInv`), kept by vote / revoke / staking hooks;
   the snapshot taken at an epoch end then covers everybody's power.
 -/
 namespace DymVerif.Spons
@@ -166,23 +166,22 @@ theorem vote_share {s s' : State} {a r gid : Nat} {ws : List GP} (wf : WF s) (hg
     exact castVote_share hg hs hv h
 
 theorem processHook_share {s : State} {a val r gid : Nat} {v : Vote} {old new : Int} (wf : WF s)
-    (hg : RaGauge s r gid) (hs : ShareInv s r gid) (hv : alookup a s.votes = some v)
-    (hdiv : s.minVP ≤ v.vp + (new - old) → Divisible (new - old) v.weights) :
+    (hg : RaGauge s r gid) (hs : ShareInv s r gid) (hv : alookup a s.votes = some v) :
     ShareInv (s.processHook a val v old new) r gid ∧ RaGauge (s.processHook a val v old new) r gid := by
   unfold State.processHook
   simp only
   split
   · exact revokeVote_share wf hg hs hv
-  · rename_i hge
-    have hge' : s.minVP ≤ v.vp + (new - old) := by omega
-    have hvok : VoteOK v := wf.votes _ (alookup_mem hv)
-    have hnew : 0 ≤ v.vp + (new - old) := by have := wf.minVP; omega
-    have hadd := wpow_add_of_dvd hvok.vp hnew hvok.pos (hdiv hge') gid
-    have := applyUpdate_total hg (applyWeights (new - old) v.weights)
-    refine ⟨?_, ⟨this.2.only, this.2.endo⟩⟩
-    show totalOf (s.applyUpdate (applyWeights (new - old) v.weights)).endorsements r = vsum _ (aset a _ s.votes)
-    rw [this.1, hs, gget_applyWeights, vsum_aerase _ wf.keys hv]
-    simp only [aset, vsum, Vote.pow]
+  · have h1 := applyUpdate_total hg v.toDist.negate
+    have h2 := applyUpdate_total h1.2 (Vote.toDist ⟨v.vp + (new - old), v.weights⟩)
+    refine ⟨?_, ⟨h2.2.only, h2.2.endo⟩⟩
+    show totalOf ((s.applyUpdate v.toDist.negate).applyUpdate (Vote.toDist ⟨v.vp + (new - old), v.weights⟩)).endorsements r
+      = vsum _ (aset a _ s.votes)
+    have hneg : gget v.toDist.negate.gauges gid = - v.pow gid := by
+      show gget (v.toDist.gauges.map fun x => (x.1, -x.2)) gid = _
+      rw [gget_negate, gget_toDist]
+    rw [h2.1, h1.1, hs, vsum_aerase _ wf.keys hv, gget_toDist, hneg]
+    simp only [aset, vsum]
     omega
 
 /-- after an epoch end the snapshot equals the total and nobody is blacklisted: it covers all power -/
@@ -312,20 +311,20 @@ theorem SameShares.trans {a b c : State} (h1 : SameShares a b) (h2 : SameShares 
 theorem epochEnd_shares (s : State) (d : Bool) : SameShares s (s.epochEnd d) := by
   unfold State.epochEnd
   cases d
-  · exact sponsEpochEnd_shares s
+  · exact ⟨fun _ => rfl, fun _ => rfl, fun _ => rfl, rfl⟩
   · exact (incentivesEpochEnd_shares s).trans (sponsEpochEnd_shares _)
 
 /-! ### hooks and steps -/
 
 theorem hook_share {s s' : State} {a val r gid : Nat} {p : Option Int} (wf : WF s) (hg : RaGauge s r gid)
-    (hs : ShareInv s r gid) (hd : HookDivisible s a val p) (h : s.hook a val p = .ok s') :
+    (hs : ShareInv s r gid) (h : s.hook a val p = .ok s') :
     ShareInv s' r gid ∧ RaGauge s' r gid := by
   rcases hook_ok h with ⟨_, rfl⟩ | ⟨v, hv, rfl⟩
   · exact ⟨hs, hg⟩
-  · exact processHook_share wf hg hs hv (hd v hv)
+  · exact processHook_share wf hg hs hv
 
 theorem hooks_share {s s' : State} {a r gid : Nat} {hs' : List (Nat × Option Int)} (wf : WF s) (inv : DistInv s)
-    (hg : RaGauge s r gid) (hs : ShareInv s r gid) (hd : HooksDivisible s a hs') (h : s.hooks a hs' = .ok s') :
+    (hg : RaGauge s r gid) (hs : ShareInv s r gid) (h : s.hooks a hs' = .ok s') :
     ShareInv s' r gid ∧ RaGauge s' r gid := by
   induction hs' generalizing s with
   | nil => cases h; exact ⟨hs, hg⟩
@@ -334,12 +333,12 @@ theorem hooks_share {s s' : State} {a r gid : Nat} {hs' : List (Nat × Option In
     split at h
     · cases h
     · rename_i s1 h1
-      have g1 := hook_good wf inv hd.1 h1
-      have s1' := hook_share wf hg hs hd.1 h1
-      exact ih g1.1 g1.2 s1'.2 s1'.1 (hd.2 s1 h1) h
+      have g1 := hook_good wf inv h1
+      have s1' := hook_share wf hg hs h1
+      exact ih g1.1 g1.2 s1'.2 s1'.1 h
 
 theorem step_share {s : State} {op : Op} {r gid : Nat} (wf : WF s) (inv : DistInv s) (hg : RaGauge s r gid)
-    (hs : ShareInv s r gid) (hd : OpDivisible s op) :
+    (hs : ShareInv s r gid) :
     ShareInv (step s op).1 r gid ∧ RaGauge (step s op).1 r gid := by
   cases op with
   | vote a ws =>
@@ -365,7 +364,7 @@ theorem step_share {s : State} {op : Op} {r gid : Nat} (wf : WF s) (inv : DistIn
       · cases h
       · rename_i s2 h2
         cases h
-        have := hooks_share wf inv hg hs hd h2
+        have := hooks_share wf inv hg hs h2
         exact ⟨this.1, ⟨this.2.only, this.2.endo⟩⟩
     · exact ⟨hs, hg⟩
   | slash fin => exact ⟨hs, ⟨hg.only, hg.endo⟩⟩
